@@ -2,7 +2,7 @@
 from ..rules import branching, engine, model, optimize, propagators, search, shaving
 
 EXPLANATION = (
-    "Static analysis of the fixpoint protocol: (i) wake-up sufficiency by bound-dependency analysis of every registered filtering function against the per-position mask derived from its trigger function (sign-split on coefficients, self-dependences and entailment guards excluded, ground-guarded reads counted as GROUND); 16 propagators watch MIN|MAX everywhere, 5 narrow ones are analysed; (ii) every write-back store announced with the exact bits; (iii) strict-tightening stores and emptiness test (domains only shrink, non-empty on 'consistent'); (iv) the wake-up table joins events; (v) a pass ends only when no enabled constraint is flagged. Does not decide that the fixpoint is the largest one. Also: the wake-up primitive (full scan, no clearing, skip only if disabled or not watching); only pop_propagator clears a queue flag; a restart (reset) and a new solver leave every constraint queued; decisions announce the bounds they move; the event constants are distinct bits and the combined masks their unions. Round 3: effect calls (helpers filling scratch arrays) are followed by the dependence analysis; write-back completeness; shaving's un-probing and status clauses."
+    "Static analysis of the fixpoint protocol: (i) wake-up sufficiency by bound-dependency analysis of every registered filtering function against the per-position mask derived from its trigger function (sign-split on coefficients, self-dependences and entailment guards excluded, ground-guarded reads counted as GROUND); 16 propagators watch MIN|MAX everywhere, 5 narrow ones are analysed; (ii) every write-back store announced with the exact bits; (iii) strict-tightening stores and emptiness test (domains only shrink, non-empty on 'consistent'); (iv) the wake-up table joins events; (v) a pass ends only when no enabled constraint is flagged. Does not decide that the fixpoint is the largest one. Also: the wake-up primitive (full scan, no clearing, skip only if disabled or not watching); only pop_propagator clears a queue flag; a restart (reset) and a new solver leave every constraint queued; decisions announce the bounds they move; the event constants are distinct bits and the combined masks their unions. Round 3: effect calls (helpers filling scratch arrays) are followed by the dependence analysis; write-back completeness; shaving's un-probing and status clauses. Round 6: the two halves of an enforced ordering a + k <= b use the same k; the candidate test of the aggregate constraints is not bypassed for a variable whose bound was just cut; every column of the wake-up table comes from the constraint's own trigger call (no memo per algorithm and arity)."
 )
 
 
